@@ -73,6 +73,16 @@ mod harnesses {
         let w = s.estimate_wait_time(ratio);
         assert!(w >= 1.0e-9);
     }
+    /// C19: the three IEEE facts the chaos unit assumes about its comparison shims (bodies `a < b`, `a > 0.0`)
+    #[kani::proof]
+    fn chaos_float_facts() {
+        let rate: f64 = kani::any(); let x: f64 = kani::any();
+        kani::assume(rate >= 0.0 && rate <= 1.0);
+        assert!(!(1.0 < rate));
+        if x >= 0.0 && x < 1.0 { assert!(x < 1.0_f64); }
+        assert!(1.0_f64 > 0.0);
+        if !(rate > 0.0) { assert!(rate == 0.0); }
+    }
     /// C15 (thorough): two idle bucket periods forget both buckets
     #[kani::proof]
     fn two_buckets_idle() {
